@@ -7,6 +7,7 @@ import (
 	"go/printer"
 	"go/token"
 	"sort"
+	"strings"
 )
 
 func exprText(e ast.Expr) string {
@@ -305,6 +306,39 @@ func extra() {
 	}
 	sort.Strings(pend)
 	emitList("pendingStatuses", pend)
+	// storage.go: what Create hands to the pruning and where the pruning loop stops
+	stg := parse("pkg/storage/storage.go")
+	callArgs, stopCond := "", ""
+	if fd := funcDecl(stg, "Storage", "Create"); fd != nil && fd.Body != nil {
+		ast.Inspect(fd.Body, func(n ast.Node) bool {
+			if c, ok := n.(*ast.CallExpr); ok {
+				if sel, ok := c.Fun.(*ast.SelectorExpr); ok && sel.Sel.Name == "removeLeastRecent" {
+					var as []string
+					for _, a := range c.Args {
+						as = append(as, exprText(a))
+					}
+					callArgs = strings.Join(as, ", ")
+				}
+			}
+			return true
+		})
+	}
+	if fd := funcDecl(stg, "Storage", "removeLeastRecent"); fd != nil && fd.Body != nil {
+		ast.Inspect(fd.Body, func(n ast.Node) bool {
+			if rs, ok := n.(*ast.RangeStmt); ok && stopCond == "" {
+				for _, st := range rs.Body.List {
+					if is, ok := st.(*ast.IfStmt); ok && len(is.Body.List) == 1 {
+						if br, ok := is.Body.List[0].(*ast.BranchStmt); ok && br.Tok.String() == "break" {
+							stopCond = exprText(is.Cond)
+						}
+					}
+				}
+			}
+			return true
+		})
+	}
+	emitStr("pruneCallArgs", callArgs)
+	emitStr("pruneStopCondition", stopCond)
 	emitSkeletons()
 	// order in which Options.MergeValues applies the value-flag families
 	emitList("valueFlagOrder", rangeOrder(funcDecl(parse("pkg/cli/values/options.go"), "Options", "MergeValues")))
